@@ -49,6 +49,15 @@ Proof.
   - destruct (copy_tokens_wf (mk_limited k) unlimited_as_lim Wn) as (_ & E & _); [cbn; lia|cbn; lia|]. rewrite E. reflexivity.
 Qed.
 
+(* Limit changes while waiters are in flight: a connection suspended inside take_tokens keeps polling the
+   REPLACED limiter object until it is granted once.  For every history of polls of the current limiter,
+   polls of any replaced limiter and limit changes, every limiter object in existence is well-formed -
+   so C20_window_bound_partial bounds what each of them can grant, in particular the new one from the
+   moment of the change, and a replaced one cannot grant more than its own (old) limit allows. *)
+Theorem C20_all_limiters_wf : forall ops t, 0 <= t -> nops_ok t ops ->
+  wfo (cur (nrun (mkNet None []) ops)) /\ Forall wfl (stale (nrun (mkNet None []) ops)).
+Proof. exact all_limiters_wf. Qed.
+
 (* No limit: a poll is granted at once (no await on that path: shape-checked by the translator) *)
 Theorem C20_unlimited_never_waits : forall now, snd (mstep None (Take now)) = UNLIMITED_GRANT /\ 0 < UNLIMITED_GRANT.
 Proof. intros now. split; [reflexivity|reflexivity]. Qed.
@@ -64,5 +73,6 @@ Proof. exact bounded_wait. Qed.
 Example C20_nonvacuous :
   wfl (mk_limited 50) /\ sorted_from 0 [5; 5; 1048576; 99999999] /\
   ops_ok 0 [SetLimit 10; Take 3; SetLimit 0; Take 4; SetLimit 2; Take 2000000] /\
-  gaps_from INTERVAL_TICKS 7 [10492; 20977].
+  gaps_from INTERVAL_TICKS 7 [10492; 20977] /\
+  nops_ok 0 [NSet 10; NTake 1048576; NSet 1; NTakeStale 0 1048577; NTake 2000000; NSet 0; NTakeStale 1 2000001].
 Proof. unfold wfl, mk_limited, INTERVAL_TICKS; cbn; lia. Qed.
